@@ -27,7 +27,7 @@ func CloneNode(node ast.Node) ast.Node {
 		}
 		values := make([]ast.Expression, len(n.Rhs))
 		for i, v := range n.Rhs {
-			variables[i] = CloneExpression(v)
+			values[i] = CloneExpression(v)
 		}
 		return ast.NewAssignment(ClonePosition(n.Position), variables, n.Type, values)
 
@@ -42,7 +42,10 @@ func CloneNode(node ast.Node) ast.Node {
 		return ast.NewBlock(ClonePosition(n.Position), nodes)
 
 	case *ast.Break:
-		label := CloneExpression(n.Label).(*ast.Identifier)
+		var label *ast.Identifier
+		if n.Label != nil {
+			label = CloneExpression(n.Label).(*ast.Identifier)
+		}
 		return ast.NewBreak(ClonePosition(n.Position), label)
 
 	case *ast.Case:
@@ -78,7 +81,10 @@ func CloneNode(node ast.Node) ast.Node {
 		return ast.NewConst(ClonePosition(n.Position), idents, typ, values, n.Index)
 
 	case *ast.Continue:
-		label := CloneExpression(n.Label).(*ast.Identifier)
+		var label *ast.Identifier
+		if n.Label != nil {
+			label = CloneExpression(n.Label).(*ast.Identifier)
+		}
 		return ast.NewContinue(ClonePosition(n.Position), label)
 
 	case *ast.Defer:
@@ -136,14 +142,6 @@ func CloneNode(node ast.Node) ast.Node {
 		}
 		return ast.NewForRange(ClonePosition(n.Position), assignment, body, els)
 
-	case *ast.Func:
-		var ident *ast.Identifier
-		if n.Ident != nil {
-			ident = ast.NewIdentifier(ClonePosition(n.Ident.Position), n.Ident.Name)
-		}
-		typ := CloneExpression(n.Type).(*ast.FuncType)
-		return ast.NewFunc(ClonePosition(n.Position), ident, typ, CloneNode(n.Body).(*ast.Block), n.DistFree, n.Format)
-
 	case *ast.Go:
 		return ast.NewGo(ClonePosition(n.Position), CloneExpression(n.Call))
 
@@ -184,7 +182,11 @@ func CloneNode(node ast.Node) ast.Node {
 		return imp
 
 	case *ast.Label:
-		return ast.NewLabel(ClonePosition(n.Position), CloneExpression(n.Ident).(*ast.Identifier), CloneNode(n.Statement))
+		var statement ast.Node
+		if n.Statement != nil {
+			statement = CloneNode(n.Statement)
+		}
+		return ast.NewLabel(ClonePosition(n.Position), CloneExpression(n.Ident).(*ast.Identifier), statement)
 
 	case *ast.Package:
 		var nn = make([]ast.Node, 0, len(n.Declarations))
@@ -194,7 +196,21 @@ func CloneNode(node ast.Node) ast.Node {
 		return ast.NewPackage(ClonePosition(n.Position), n.Name, nn)
 
 	case *ast.Raw:
-		return ast.NewRaw(ClonePosition(n.Position), n.Marker, n.Tag, CloneNode(n.Text).(*ast.Text))
+		var text *ast.Text
+		if n.Text != nil {
+			text = CloneNode(n.Text).(*ast.Text)
+		}
+		return ast.NewRaw(ClonePosition(n.Position), n.Marker, n.Tag, text)
+
+	case *ast.Return:
+		var values []ast.Expression
+		if n.Values != nil {
+			values = make([]ast.Expression, len(n.Values))
+			for i, v := range n.Values {
+				values[i] = CloneExpression(v)
+			}
+		}
+		return ast.NewReturn(ClonePosition(n.Position), values)
 
 	case *ast.Select:
 		var text *ast.Text
@@ -244,27 +260,6 @@ func CloneNode(node ast.Node) ast.Node {
 		}
 		return ast.NewStatements(ClonePosition(n.Position), nodes)
 
-	case *ast.StructType:
-		var fields []*ast.Field
-		if n.Fields != nil {
-			fields = make([]*ast.Field, len(n.Fields))
-			for i, field := range n.Fields {
-				var idents []*ast.Identifier
-				if field.Idents != nil {
-					idents = make([]*ast.Identifier, len(field.Idents))
-					for j, ident := range field.Idents {
-						idents[j] = CloneExpression(ident).(*ast.Identifier)
-					}
-				}
-				var typ ast.Expression
-				if field.Type != nil {
-					typ = CloneExpression(field.Type)
-				}
-				fields[i] = ast.NewField(idents, typ, field.Tag)
-			}
-		}
-		return ast.NewStructType(ClonePosition(n.Position), fields)
-
 	case *ast.Switch:
 		var init ast.Node
 		if n.Init != nil {
@@ -290,6 +285,10 @@ func CloneNode(node ast.Node) ast.Node {
 			copy(text, n.Text)
 		}
 		return ast.NewText(ClonePosition(n.Position), text, n.Cut)
+
+	case *ast.TypeDeclaration:
+		return ast.NewTypeDeclaration(ClonePosition(n.Position), CloneExpression(n.Ident).(*ast.Identifier),
+			CloneExpression(n.Type), n.IsAliasDeclaration)
 
 	case *ast.TypeSwitch:
 		var init ast.Node
@@ -388,7 +387,7 @@ func CloneExpression(expr ast.Expression) ast.Expression {
 			keyValues[i].Key = CloneExpression(kv.Key)
 			keyValues[i].Value = CloneExpression(kv.Value)
 		}
-		return ast.NewCompositeLiteral(ClonePosition(e.Pos()), CloneExpression(e.Type), keyValues)
+		expr2 = ast.NewCompositeLiteral(ClonePosition(e.Pos()), CloneExpression(e.Type), keyValues)
 
 	case *ast.Default:
 		expr2 = ast.NewDefault(ClonePosition(e.Position), CloneExpression(e.Expr1), CloneExpression(e.Expr2))
@@ -400,7 +399,12 @@ func CloneExpression(expr ast.Expression) ast.Expression {
 			ident = ast.NewIdentifier(ClonePosition(e.Ident.Position), e.Ident.Name)
 		}
 		typ := CloneExpression(e.Type).(*ast.FuncType)
-		expr2 = ast.NewFunc(ClonePosition(e.Position), ident, typ, CloneNode(e.Body).(*ast.Block), false, e.Format)
+		var body *ast.Block
+		if e.Body != nil {
+			// Body is nil for a function declaration without body.
+			body = CloneNode(e.Body).(*ast.Block)
+		}
+		expr2 = ast.NewFunc(ClonePosition(e.Position), ident, typ, body, e.DistFree, e.Format)
 
 	case *ast.FuncType:
 		var parameters []*ast.Parameter
@@ -439,6 +443,11 @@ func CloneExpression(expr ast.Expression) ast.Expression {
 	case *ast.MapType:
 		expr2 = ast.NewMapType(ClonePosition(e.Pos()), CloneExpression(e.KeyType), CloneExpression(e.ValueType))
 
+	case *ast.Placeholder:
+		ph := ast.NewPlaceholder()
+		ph.Position = ClonePosition(e.Position)
+		expr2 = ph
+
 	case *ast.Render:
 		n := ast.NewRender(ClonePosition(e.Position), e.Path)
 		if e.Tree != nil {
@@ -456,6 +465,27 @@ func CloneExpression(expr ast.Expression) ast.Expression {
 		expr2 = ast.NewSlicing(ClonePosition(e.Position), CloneExpression(e.Expr), CloneExpression(e.Low),
 			CloneExpression(e.High), CloneExpression(e.Max), e.IsFull)
 
+	case *ast.StructType:
+		var fields []*ast.Field
+		if e.Fields != nil {
+			fields = make([]*ast.Field, len(e.Fields))
+			for i, field := range e.Fields {
+				var idents []*ast.Identifier
+				if field.Idents != nil {
+					idents = make([]*ast.Identifier, len(field.Idents))
+					for j, ident := range field.Idents {
+						idents[j] = CloneExpression(ident).(*ast.Identifier)
+					}
+				}
+				var typ ast.Expression
+				if field.Type != nil {
+					typ = CloneExpression(field.Type)
+				}
+				fields[i] = ast.NewField(idents, typ, field.Tag)
+			}
+		}
+		expr2 = ast.NewStructType(ClonePosition(e.Position), fields)
+
 	case *ast.TypeAssertion:
 		expr2 = ast.NewTypeAssertion(ClonePosition(e.Position), CloneExpression(e.Expr), CloneExpression(e.Type))
 
@@ -471,7 +501,10 @@ func CloneExpression(expr ast.Expression) ast.Expression {
 	return expr2
 }
 
-// ClonePosition returns a copy of position pos.
+// ClonePosition returns a copy of position pos. If pos is nil, it returns nil.
 func ClonePosition(pos *ast.Position) *ast.Position {
+	if pos == nil {
+		return nil
+	}
 	return &ast.Position{Line: pos.Line, Column: pos.Column, Start: pos.Start, End: pos.End}
 }
